@@ -236,6 +236,7 @@ type nfWorld struct {
 	stepKind  string                // the list-changed sends of this kind made now belong to a held fan-out: park them
 	fanParked map[string]*nfFanSend // kind -> the write the held fan-out of that kind is blocked in
 	renameTo  int                   // >= 0: resources/updated notifications sent now name this URI instead
+	everListed map[string]bool     // keys some client has listed in this case (an emptied set shows the content of version 0 again: the generator empties a set only while nobody can hold that content)
 }
 
 // nfWindow: the features of one set are w<lo>..w<hi>; every effective change makes a content never seen before.
@@ -454,6 +455,69 @@ func (w *nfWorld) change(fs, eff string) string {
 		return "ok"
 	default:
 		return "bad-op"
+	}
+	nw.ver++
+	nw.byText[nw.text("")] = nw.ver
+	return "ok"
+}
+
+// removeNames performs ONE Remove*(names...) call through the public API. pattern: p = the next registered
+// feature (w<lo>, w<lo+1>, ...), a = a name that was never registered, d = a name already named in this call
+// (removed by the time featureSet.remove reaches it). The call is a change iff the pattern has a p.
+func (w *nfWorld) removeNames(fs, pattern string) string {
+	nw := w.win[fs]
+	var names []string
+	np := 0
+	nameOf := func(n int) string {
+		switch fs {
+		case "resources":
+			return fmt.Sprintf("file:///w/w%d", n)
+		case "templates":
+			return fmt.Sprintf("tmpl://w%d/{x}", n)
+		}
+		return fmt.Sprintf("w%d", n)
+	}
+	for _, c := range pattern {
+		switch c {
+		case 'p':
+			if nw.lo+np > nw.hi {
+				return "refused"
+			}
+			names = append(names, nameOf(nw.lo+np))
+			np++
+		case 'a':
+			w.descCtr++
+			names = append(names, fmt.Sprintf("never-registered-%d", w.descCtr))
+		case 'd':
+			if len(names) == 0 {
+				return "bad-op"
+			}
+			names = append(names, names[len(names)-1])
+		default:
+			return "bad-op"
+		}
+	}
+	if len(names) == 0 {
+		return "bad-op"
+	}
+	switch fs {
+	case "tools":
+		w.s.RemoveTools(names...)
+	case "prompts":
+		w.s.RemovePrompts(names...)
+	case "resources":
+		w.s.RemoveResources(names...)
+	case "templates":
+		w.s.RemoveResourceTemplates(names...)
+	default:
+		return "bad-op"
+	}
+	if np == 0 {
+		return "ok"
+	}
+	for j := 0; j < np; j++ {
+		delete(nw.desc, nw.lo)
+		nw.lo++
 	}
 	nw.ver++
 	nw.byText[nw.text("")] = nw.ver
@@ -816,7 +880,12 @@ func (w *nfWorld) apply(toks []string) (obs string) {
 		w.mu.Unlock()
 		return "ok"
 	case "change":
-		obs := w.change(toks[1], toks[2])
+		var obs string
+		if toks[2] == "rm" && len(toks) == 4 {
+			obs = w.removeNames(toks[1], toks[3])
+		} else {
+			obs = w.change(toks[1], toks[2])
+		}
 		synctest.Wait()
 		return w.withStray(obs)
 	case "advance":
@@ -1286,6 +1355,10 @@ func (w *nfWorld) apply(toks []string) (obs string) {
 		}
 		w.mu.Lock()
 		sl.reached[key] = false
+		if w.everListed == nil {
+			w.everListed = map[string]bool{}
+		}
+		w.everListed[key] = true
 		w.mu.Unlock()
 		if toks[3] == "n" {
 			res, err := w.call(sl, key)
@@ -1540,6 +1613,17 @@ type nfEmit func(op, obs string, tags ...string)
 func nfTag(toks []string, obs string) string {
 	switch toks[0] {
 	case "change":
+		if toks[2] == "rm" && len(toks) == 4 {
+			switch {
+			case !strings.Contains(toks[3], "p"):
+				return "change-rm-only-absent"
+			case strings.ContainsAny(toks[3], "ad") && !strings.HasSuffix(toks[3], "p"):
+				return "change-rm-mixed-last-absent"
+			case strings.ContainsAny(toks[3], "ad"):
+				return "change-rm-mixed"
+			}
+			return "change-rm-several"
+		}
 		return "change-" + toks[2]
 	case "connect":
 		return "connect-" + toks[3]
@@ -1741,8 +1825,10 @@ type nfGen struct {
 	nextSid int
 	tail    []string
 	hook    string
-	focus   int // 0 mixed, 1 debounce window, 2 cache races, 3 subscriptions, 4 windows after an ack write, 5 overlapping listens of one session, 6 read cache against updates outside the Subscribe table, 7 fan-outs blocked between two sessions, 8 multi-URI listens and a refusing SubscribeHandler
+	focus   int // 0 mixed, 1 debounce window, 2 cache races, 3 subscriptions, 4 windows after an ack write, 5 overlapping listens of one session, 6 read cache against updates outside the Subscribe table, 7 fan-outs blocked between two sessions, 8 multi-URI listens and a refusing SubscribeHandler, 9 capability switches (feature sets emptied and refilled under inferred capabilities; Remove* calls naming several features), 10 three sessions of mixed generations and bursts that straddle the debounce window, 11 sessions closing and connecting while a fan-out is blocked between three sessions
 	steps   int
+	loaded  bool // focus 10 / 11: the three sessions of mixed generations are connected
+	emptied map[string]bool // focus 9: feature sets that have been emptied once
 }
 
 func (g *nfGen) pick(xs ...string) string { return xs[g.rng.Intn(len(xs))] }
@@ -1760,6 +1846,11 @@ func (g *nfGen) next(w *nfWorld, step int) string {
 				return caps[g.rng.Intn(3)]
 			}
 			return g.pick("unset", "on")
+		}
+		if g.focus == 9 {
+			// inferred capabilities (unset) mostly: they follow the feature sets
+			ic := func() string { return g.pick("unset", "unset", "unset", "off", "on") }
+			return fmt.Sprintf("config %s %s %s %s", ic(), ic(), g.pick("unset", "on", "off"), g.hook)
 		}
 		return fmt.Sprintf("config %s %s %s %s", pc(), pc(), pc(), g.hook)
 	}
@@ -1793,8 +1884,11 @@ func (g *nfGen) body(w *nfWorld) string {
 	}
 	w.mu.Unlock()
 	fs := func() string {
-		if g.focus == 1 || g.focus == 2 {
+		if g.focus == 1 || g.focus == 2 || g.focus == 10 {
 			return g.pick("tools", "tools", "tools", "prompts", "resources", "templates")
+		}
+		if g.focus == 9 {
+			return g.pick("tools", "tools", "prompts", "prompts", "resources", "templates")
 		}
 		return nfSets[g.rng.Intn(4)]
 	}
@@ -1807,11 +1901,51 @@ func (g *nfGen) body(w *nfWorld) string {
 		}
 		return g.pick("tools", "prompts", "resources", "templates", "read:0", "read:1")
 	}
+	// a set may be emptied (focus 9) once, and only while no client has listed it: the empty list is the one
+	// content that repeats, and a cached or held empty result could not be told from the new one
+	canEmpty := func(f string) bool {
+		if g.focus != 9 {
+			return false
+		}
+		if g.emptied == nil {
+			g.emptied = map[string]bool{}
+		}
+		w.mu.Lock()
+		defer w.mu.Unlock()
+		return !g.emptied[f] && !w.everListed[f]
+	}
 	var changeOf func(f string) string
 	changeOp := func() string { return changeOf(fs()) }
 	changeOf = func(f string) string {
 		nw := w.win[f]
 		size := nw.hi - nw.lo + 1
+		// ONE Remove*(names…) call naming several features: registered (p), never registered (a), repeated (d),
+		// the absent ones first, in the middle, last; only absent names (then nothing is owed)
+		if mr := map[int]int{9: 30}[g.focus]; g.rng.Intn(100) < mr+8 {
+			pats := []string{"a", "aa", "ad"}
+			keep := 1 // features that stay
+			if canEmpty(f) {
+				keep = 0
+			}
+			if size-1 >= keep {
+				pats = append(pats, "pa", "ap", "pd", "apa", "aap", "paa", "pad", "pa", "pd")
+			}
+			if size-2 >= keep {
+				pats = append(pats, "pp", "pap", "ppa", "app", "pdp", "ppd")
+			}
+			if size-3 >= keep {
+				pats = append(pats, "ppp", "papa")
+			}
+			pat := pats[g.rng.Intn(len(pats))]
+			if strings.Count(pat, "p") == size && size > 0 {
+				g.emptied[f] = true
+			}
+			return "change " + f + " rm " + pat
+		}
+		if size == 1 && canEmpty(f) && g.rng.Intn(3) == 0 {
+			g.emptied[f] = true
+			return "change " + f + " remove" // the set is emptied: an inferred capability is switched off
+		}
 		switch r := g.rng.Intn(10); {
 		case size == 0 || r < 4:
 			return "change " + f + " add"
@@ -1839,11 +1973,43 @@ func (g *nfGen) body(w *nfWorld) string {
 		}
 	}
 	sort.Ints(subscribed)
+	if (g.focus == 10 || g.focus == 11) && !g.loaded && len(free) == 3 {
+		// three sessions of mixed protocol generations, with different opt-ins
+		g.loaded = true
+		perm := g.rng.Perm(3)
+		m1 := g.pick("tpr", "tpr", "tp", "t")
+		m2 := g.pick("t", "tp", "tpr", "r")
+		g.nextSid += 3
+		g.tail = append(g.tail,
+			fmt.Sprintf("connect c%d %d legacy -", perm[0], g.nextSid-2),
+			fmt.Sprintf("connect c%d %d modern %s", perm[1], g.nextSid-1, m1),
+			fmt.Sprintf("listen c%d", perm[1]),
+			fmt.Sprintf("connect c%d %d %s %s", perm[2], g.nextSid, g.pick("modern", "modern", "legacy"), m2))
+		return "change " + g.pick("tools", "prompts", "tools") + " add"
+	}
 	if g.steps < 3 && g.rng.Intn(10) < 7 {
 		g.steps++
 		return "change " + g.pick("tools", "prompts", "tools", "templates") + " add"
 	}
 	g.steps++
+	if g.focus == 10 && len(w.ackWindows()) == 0 && len(w.fansOpen()) == 0 && g.rng.Intn(100) < 35 {
+		// a burst that straddles the debounce window: every change pushes the deadline back, the gaps end
+		// just before / at / just after the deadline the previous change had set
+		d := int(notificationDelay / time.Millisecond)
+		f := fs()
+		n := 2 + g.rng.Intn(3)
+		for j := 0; j < n; j++ {
+			if j > 0 {
+				g.tail = append(g.tail, "change "+f+" "+g.pick("add", "add", "replace"))
+			}
+			gap := []int{d - 1, 1, d - 2, 2, d - 1, d}[g.rng.Intn(6)]
+			if j == n-1 {
+				gap = []int{1, d - 1, d, d + 1}[g.rng.Intn(4)]
+			}
+			g.tail = append(g.tail, fmt.Sprintf("advance %d", gap))
+		}
+		return "change " + f + " add"
+	}
 	if g.focus == 7 && len(conn)+len(gated) < 2 && len(free) > 0 && g.rng.Intn(10) < 7 {
 		g.nextSid++
 		return fmt.Sprintf("connect c%d %d %s %s", free[g.rng.Intn(len(free))], g.nextSid, g.pick("legacy", "legacy", "modern"), g.pick("tpr", "t", "tp", "-"))
@@ -1905,6 +2071,22 @@ func (g *nfGen) body(w *nfWorld) string {
 		if k == "resources" && g.rng.Intn(2) == 0 {
 			kfs = "templates"
 		}
+		if g.focus == 11 {
+			// a session closes, or a new one connects (also into the slot of a closed one), between two writes
+			switch r2 := g.rng.Intn(100); {
+			case r2 < 22 && len(conn) > 0:
+				i := conn[g.rng.Intn(len(conn))]
+				if len(w.slots[i].held) == 0 && len(w.slots[i].ackParked) == 0 && len(w.slots[i].cancelParked) == 0 {
+					if g.rng.Intn(2) == 0 {
+						g.tail = append(g.tail, "tables")
+					}
+					return fmt.Sprintf("close c%d", i)
+				}
+			case r2 < 36 && len(free) > 0:
+				g.nextSid++
+				return fmt.Sprintf("connect c%d %d %s %s", free[g.rng.Intn(len(free))], g.nextSid, g.pick("legacy", "modern"), g.pick("-", "t", "tpr"))
+			}
+		}
 		switch r := g.rng.Intn(100); {
 		case r < 30:
 			return "fsend " + k
@@ -1960,6 +2142,8 @@ func (g *nfGen) body(w *nfWorld) string {
 		xp = 15
 	} else if g.focus == 8 {
 		xp = 45
+	} else if g.focus == 9 {
+		xp = 25
 	}
 	holdC := func() string { // the cancellation of the listen that ends is held on its way
 		if g.rng.Intn(10) < 3 || (g.focus == 6 && g.rng.Intn(2) == 0) {
@@ -2054,7 +2238,7 @@ func (g *nfGen) body(w *nfWorld) string {
 			return fmt.Sprintf("listen c%d%s", gated[g.rng.Intn(len(gated))], hold())
 		case len(parked) > 0 && r < 45:
 			k := parked[g.rng.Intn(len(parked))]
-			if sp := map[int]int{7: 75, 1: 25}[g.focus]; w.hook && w.fanParked[k] == nil && g.rng.Intn(100) < sp+10 {
+			if sp := map[int]int{7: 75, 1: 25, 11: 75, 10: 20}[g.focus]; w.hook && w.fanParked[k] == nil && g.rng.Intn(100) < sp+10 {
 				return "cbrun " + k + " step"
 			}
 			return "cbrun " + k
@@ -2176,7 +2360,7 @@ func (g *nfGen) body(w *nfWorld) string {
 	return changeOp()
 }
 
-const nfScriptedShapes = 23
+const nfScriptedShapes = 27
 
 // nfScripted: the shapes the property is about, placed at random offsets (so that quick runs always reach them).
 func nfScripted(rng *rand.Rand, hook string, variant int) []string {
@@ -2312,6 +2496,22 @@ func nfScripted(rng *rand.Rand, hook string, variant int) []string {
 	case 22: // a stream opened below ClientSession.Subscribe: its updates invalidate too; its cancellation held
 		ops = append(ops, "connect c0 1 modern -", "xlisten c0 L1 - u1", "list c0 read:1 n", "rupdated u1", "list c0 read:1 n", "list c0 read:1 n", "xend c0 L1 hold", "rupdated u1",
 			"list c0 read:1 n", "canceldone c0 L1", "rupdated u1", "list c0 read:1 n", "tables")
+	case 23, 24, 25, 26: // ONE Remove*(names…) call that names a registered feature and absent / repeated names, the absent one last, first, in the middle — for each feature set; then a call naming only absent names (nothing is owed)
+		f := []string{"tools", "prompts", "resources", "templates"}[variant%nfScriptedShapes-23]
+		k := map[string]string{"tools": "tools", "prompts": "prompts", "resources": "resources", "templates": "resources"}[f]
+		m := map[string]string{"tools": "t", "prompts": "p", "resources": "r"}[k]
+		ops = append(ops, "change "+f+" add", "change "+f+" add", "change "+f+" add", "change "+f+" add", "change "+f+" add",
+			"change "+f+" add", "change "+f+" add", "connect c0 1 legacy -", "connect c1 2 modern "+m, "listen c1", fmt.Sprintf("advance %d", 2*d))
+		if hook == "hook1" {
+			ops = append(ops, "cbrun "+k)
+		}
+		for _, pat := range []string{"pa", "ap", "pd", "apa", "a", "ppa"}[rng.Intn(2):] {
+			ops = append(ops, "change "+f+" rm "+pat, "list c1 "+f+" n", fmt.Sprintf("advance %d", d))
+			if hook == "hook1" && strings.Contains(pat, "p") {
+				ops = append(ops, "cbrun "+k)
+			}
+			ops = append(ops, "list c1 "+f+" n")
+		}
 	case 5: // capability inferred at listen time: nothing to list yet
 		ops = append(ops, "connect c0 1 modern tpr", "listen c0", "tables", "change prompts add", fmt.Sprintf("advance %d", d+1))
 		if hook == "hook1" {
@@ -2387,7 +2587,7 @@ func TestVerifNotify(t *testing.T) {
 	n := verifN(3000, 40000)
 	for c := 0; c < n; c++ {
 		rng := verifRng(int64(1000 + c))
-		g := &nfGen{rng: rng, n: 8 + rng.Intn(20), hook: hookTok, focus: c % 9}
+		g := &nfGen{rng: rng, n: 8 + rng.Intn(20), hook: hookTok, focus: c % 12}
 		emit := func(op, obs string, tags ...string) { out.line(fmt.Sprintf("g%d", c), op, obs, tags...) }
 		drained := false
 		nfRunCase(t, hook, emit, func(w *nfWorld, step int) string {
